@@ -14,8 +14,11 @@
      judge remote words           ORACLE: the decision ladder (Model/Ladder.v of another package)
      astr remote text             ORACLE: analyze(text) = parser + walker + ladder
    The plain-form exactness of the wrapper loop (time/timeout/nice/nohup/command) and the
-   env-assignment prefix law are theorems of the ladder model: Props of Model/Ladder.v
-   (C04_exact_plain, C04_env_prefix live there). *)
+   env-assignment prefix law are theorems of the ladder model: Props/C04L.v.
+   The docker/kubectl exec extraction theorems (handler half of C13) are in Props/C13H.v.
+   The models follow /repo after the repairs 23c5075 (env) fcba02c (fd) b4cdef6 (find) 53c5c7c (shell)
+   6c3ffaf (xargs) 5143c77 (quote removal); what was refuted before them is now proved, and the old
+   behaviour is kept as Legacy definitions with their refutations. *)
 From DippyV Require Import Base.Str Base.Verdict Gen.Tables Model.BashQuote Model.Getopt Model.Wrappers Model.WrapSpec
   Proofs.VerdictP Proofs.BashQuoteP Proofs.WrappersP.
 
@@ -89,3 +92,111 @@ Print Assumptions C04_no_launder.
 Print Assumptions C04_exact_delegate.
 Print Assumptions C04_string_delegate.
 
+
+(* ------------------------------------------------------------------ extraction = execution, per wrapper *)
+(* sh/bash/dash, EVERY invocation the specification understands (long options with one or two dashes,
+   option clusters with either sign, -o/-O names, -- and -, options after -c, operands after the string):
+   if the shell runs a command string, exactly that string is delegated ... *)
+Theorem C04_extract_bash : forall args s, bash_exec args = Some (SString s) ->
+  shell_h ($"bash" :: args) = match s with [] => HAsk | _ => HString s end.
+Proof. exact bash_extract_general. Qed.
+Print Assumptions C04_extract_bash.
+Theorem C04_extract_sh : forall base args s, In base [$"sh"; $"dash"] -> dash_exec args = Some (SString s) ->
+  shell_h (base :: args) = match s with [] => HAsk | _ => HString s end.
+Proof. exact dash_extract_general. Qed.
+Print Assumptions C04_extract_sh.
+(* ... and if it runs a script file or reads commands from stdin, nothing is delegated: the handler asks
+   (bash script.sh -c ls, bash script.sh --help, bash -s) *)
+Theorem C04_shell_script_asks :
+  (forall args act, bash_exec args = Some act -> (forall s, act <> SString s) -> act <> SNothing -> shell_h ($"bash" :: args) = HAsk) /\
+  (forall base args act, In base [$"sh"; $"dash"] -> dash_exec args = Some act -> (forall s, act <> SString s) -> shell_h (base :: args) = HAsk).
+Proof. exact (conj bash_script_asks dash_script_asks). Qed.
+Print Assumptions C04_shell_script_asks.
+
+(* env [NAME=VALUE]... COMMAND ARG... *)
+Theorem C04_extract_env : forall assigns c0 cs,
+  forallb assign_word assigns = true -> dash c0 = false -> has_eq c0 = false ->
+  env_h ($"env" :: assigns ++ c0 :: cs) = HWords [c0 :: cs] false /\ env_exec (assigns ++ c0 :: cs) = Some [c0 :: cs].
+Proof. exact env_extract. Qed.
+Print Assumptions C04_extract_env.
+
+(* xargs COMMAND ARG... and xargs -- COMMAND ARG...: the command plus one unknown appended argument is judged *)
+Theorem C04_extract_xargs : forall c0 cs, dash c0 = false -> xargs_unsafe (c0 :: cs) = false ->
+  xargs_h ($"xargs" :: c0 :: cs) = HWords [(c0 :: cs) ++ [PLACEHOLDER]] false /\ xargs_exec (c0 :: cs) = Some [c0 :: cs].
+Proof. exact xargs_extract. Qed.
+Print Assumptions C04_extract_xargs.
+Theorem C04_extract_xargs_ddash : forall c, c <> [] ->
+  xargs_h ($"xargs" :: $"--" :: c) = HWords [c ++ [PLACEHOLDER]] false /\ xargs_exec ($"--" :: c) = Some [c].
+Proof. exact xargs_extract_ddash. Qed.
+Print Assumptions C04_extract_xargs_ddash.
+
+(* find PATH... -exec COMMAND ARG... ;  for every command whose words are not ; \; -ok -okdir -delete and that
+   has no + right after {} (a + anywhere else is an ordinary argument, as for find) *)
+Theorem C04_extract_find : forall paths c,
+  forallb plain_path paths = true -> forallb find_word_ok c = true -> no_plus_after_braces false c = true -> c <> [] ->
+  find_h ($"find" :: paths ++ $"-exec" :: c ++ [$";"]) = HWords [c] false /\
+  find_exec (paths ++ $"-exec" :: c ++ [$";"]) = Some [c].
+Proof. exact (fun paths c Hp Hc Hq Hn => conj (find_extract_h paths c Hp Hc Hq Hn) (find_extract_spec paths c Hp Hc Hq Hn)). Qed.
+Print Assumptions C04_extract_find.
+
+(* the inner command a handler delegates is always a suffix of the command line *)
+Theorem C04_inner_is_suffix : forall l, suffix_of (xargs_skip l) l.
+Proof. exact xargs_skip_suffix. Qed.
+Print Assumptions C04_inner_is_suffix.
+
+(* ------------------------------------------------------------------ formerly refuted, now proved instances *)
+Theorem C04_repaired_witnesses :
+  (modelled (w ["bash"; "script.sh"; "-c"; "ls"]) = Some HAsk /\
+   modelled (w ["sh"; "script.sh"; "-c"; "ls"]) = Some HAsk /\
+   modelled (w ["bash"; "-rcfile"; "ls"; "-c"; "rm x"]) = Some (HString $"rm x") /\
+   modelled (w ["bash"; "-c"; "-e"; "zap"]) = Some (HString $"zap") /\
+   modelled (w ["bash"; "script.sh"; "--help"]) = Some HAsk) /\
+  (modelled (w ["find"; "."; "-exec"; "env"; "-u"; "+"; "rm"; "x"; ";"]) = Some (HWords [w ["env"; "-u"; "+"; "rm"; "x"]] false) /\
+   wrapper_exec (w ["find"; "."; "-exec"; "env"; "-u"; "+"; "rm"; "x"; ";"]) = Some [w ["env"; "-u"; "+"; "rm"; "x"]]) /\
+  ((modelled (w ["env"; "-iu"; "ls"; "rm"; "x"]) = Some (HWords [w ["rm"; "x"]] false) /\
+    wrapper_exec (w ["env"; "-iu"; "ls"; "rm"; "x"]) = Some [w ["rm"; "x"]]) /\
+   (modelled (w ["env"; "--uns"; "ls"; "rm"; "x"]) = Some (HWords [w ["rm"; "x"]] false) /\
+    wrapper_exec (w ["env"; "--uns"; "ls"; "rm"; "x"]) = Some [w ["rm"; "x"]]) /\
+   modelled (w ["env"; "--split=rm x"]) = Some (HString $"rm x")) /\
+  ((modelled (w ["xargs"; "-0I"; "ls"; "rm"; "x"]) = Some (HWords [w ["rm"; "x"]] false) /\
+    wrapper_exec (w ["xargs"; "-0I"; "ls"; "rm"; "x"]) = Some [w ["rm"; "x"]]) /\
+   (modelled (w ["xargs"; "--process-slot"; "ls"; "rm"; "x"]) = Some (HWords [w ["rm"; "x"; "{}"]] false) /\
+    wrapper_exec (w ["xargs"; "--process-slot"; "ls"; "rm"; "x"]) = Some [w ["rm"; "x"]]) /\
+   modelled (w ["xargs"; "env"]) = Some (HWords [w ["env"; "{}"]] false)) /\
+  (modelled (w ["fd"; "-x"; "ls"; ";"; "-x"; "rm"]) = Some (HWords [w ["ls"]; w ["rm"]] false) /\
+   wrapper_exec (w ["fd"; "-x"; "ls"; ";"; "-x"; "rm"]) = Some [w ["ls"]; w ["rm"]]).
+Proof. exact (conj shell_formerly_refuted (conj find_formerly_refuted (conj env_formerly_refuted (conj xargs_formerly_refuted fd_formerly_refuted)))). Qed.
+Print Assumptions C04_repaired_witnesses.
+
+(* Legacy definitions (the handlers before the repairs) and their refutations, kept to recognise a revert *)
+Theorem C04_legacy_refuted :
+  (legacy_after_c (w ["bash"; "script.sh"; "-c"; "ls"]) = Some (w ["ls"]) /\
+   shell_exec (w ["bash"; "script.sh"; "-c"; "ls"]) = Some (SFile $"script.sh")) /\
+  (legacy_env_scan (w ["-iu"; "ls"; "rm"; "x"]) = w ["ls"; "rm"; "x"] /\ env_exec (w ["-iu"; "ls"; "rm"; "x"]) = Some [w ["rm"; "x"]]).
+Proof. exact (conj legacy_shell_refuted legacy_env_refuted). Qed.
+Print Assumptions C04_legacy_refuted.
+
+(* STILL refuted on /repo HEAD (known finding C04-xargs-e-separate-word, pinned by tests/cli/test_xargs.py):
+   FULL STATEMENT  forall args, xargs_exec args = Some [c] -> xargs_h (xargs :: args) = HWords [c ++ [{}]] false *)
+Theorem C04_extract_xargs_refuted :
+  modelled (w ["xargs"; "-e"; "STOP"; "head"]) = Some (HWords [w ["head"; "{}"]] false) /\
+  wrapper_exec (w ["xargs"; "-e"; "STOP"; "head"]) = Some [w ["STOP"; "head"]].
+Proof. exact xargs_e_refuted. Qed.
+Print Assumptions C04_extract_xargs_refuted.
+
+(* ------------------------------------------------------------------ non-vacuity *)
+Example C04_example_quote : bash_quote $"it's a; rm" = $"'it'""'""'s a; rm'" /\ bash_words $"ls '-l a'  ""x""'y'" = Some [$"ls"; $"-l a"; $"xy"]
+  /\ reread $"it's a; rm" = $"it's a; rm" /\ reread $"cost$" = $"'cost$'".
+Proof. vm_compute. repeat split; reflexivity. Qed.
+Example C04_example_bash :
+  bash_exec (w ["--norc"; "-ex"; "-o"; "pipefail"; "-c"; "-u"; "rm -rf x"; "arg0"]) = Some (SString $"rm -rf x") /\
+  bash_exec (w ["-e"; "script.sh"; "-c"; "ls"]) = Some (SFile $"script.sh").
+Proof. vm_compute. split; reflexivity. Qed.
+Example C04_example_oracles_satisfiable :
+  let judge := fun (_ : bool) (_ : list str) => Ask in
+  let astr := fun (_ : bool) (s : str) => match s with [] => Allow | _ => Ask end in
+  forall r ws, ws <> [] -> astr r (bash_join ws) = judge r (map reread ws).
+Proof.
+  intros judge astr r ws H. unfold astr, judge. destruct (bash_join ws) eqn:E; [|reflexivity].
+  exfalso. exact (bash_join_nonempty ws H E).
+Qed.
